@@ -41,6 +41,7 @@ func (idx *hintFileIndex) get(keyhash uint64, key string) (item *HintItem, err e
 		return
 	}
 	reader.fd.Seek(offset, 0)
+	reader.offset = offset
 	reader.rbuf.Reset(reader.fd)
 	defer reader.fd.Close()
 	var it *HintItem
